@@ -332,6 +332,7 @@ class Alias:
         self.state_in: Dict[Node, Dict[str, Val]] = {}
         self.unknown_index_sites: Set[str] = set()
         self._collect = False
+        self.n_sink_sites = 0
         ctx.functions_analysed.add(f.qual)
 
     # ------------------------------------------------------------------------------------- environment
@@ -608,6 +609,8 @@ class Alias:
                 self._attr_store(n, st, base_expr.attr, val, sub=True)
 
     def add_sink(self, n, st, kind, origins, zero=False, via="", target=None, callee=None) -> Optional[Sink]:
+        if self._collect:
+            self.n_sink_sites += 1
         if not self._collect or not origins:
             return None
         s = Sink(n, st, kind, frozenset(origins), zero, via, ast.unparse(target) if target is not None else "",
